@@ -227,6 +227,7 @@ def run(ctx, repo, tier):
     from .C10 import selection_siblings
     selection_siblings(ctx, repo, "C11")
     sign_completion(ctx, repo)
+    rotation_matrix_word(ctx, repo)
     ctx.require_instances("SELECT", 5, "selector obligations")
     ctx.trust(*META["trusted"])
     ctx.assume(*META["assumptions"])
@@ -363,3 +364,226 @@ def sign_completion(ctx, repo):
                     fi.where, norm_stmt(st), witness=f"replacement reachable for {sorted(reach)} undetermined signs")
     else:
         ctx.inconclusive("SELECT", "C11.signfix", "sign completion reachable for an unexpected set of cases", fi.where, witness=str(sorted(reach)))
+
+
+def rotation_matrix_word(ctx, repo):
+    """ROTMAT: the per-frame rotation handed to the quaternion assignment is, as a matrix expression,
+
+            A_k · D(s_k) · D(s_ref)^-1 · A_ref^-1          (A = principal axes as COLUMNS, D(s) = diagonal matrix of the axis signs)
+
+    i.e. the signs scale the axis COLUMNS of the frame matrix and the reference matrix is inverted unscaled (diagonal factors commute
+    with each other but not with A).  The expression is evaluated to a word over these factors: `M * v`, np.multiply(M, np.tile(v,(3,1)))
+    append D(v) on the right (column scaling), `M * v[:, None]` / `v[:, None] * M` put D(v) on the left (row scaling)."""
+    import ast as _a
+    from ..astutil import Canon
+    at = repo.cls("molgri.molecules.transitions", "AssignmentTool")
+    gr = at.methods.get("_get_rotation_matrices")
+    ctx.instance("QMAT")
+    if gr is None:
+        ctx.inconclusive("QMAT", "C11.rotmat", "anchor vanished: AssignmentTool._get_rotation_matrices", at.module.relpath)
+        return
+    ctx.analysed(gr)
+
+    class Unknown(Exception):
+        pass
+
+    def inv(word):
+        return [(k_, w_, t_, not i_) for k_, w_, t_, i_ in reversed(word)]
+
+    def who(e, env):
+        """'frame' / 'ref' for the object whose axes / signs are taken"""
+        e = env["cn"].expand(e)
+        t = src(e)
+        if t.startswith("self.reference_universe"):
+            return "ref"
+        root = e
+        while isinstance(root, (_a.Attribute, _a.Call, _a.Subscript)):
+            root = root.func if isinstance(root, _a.Call) else root.value
+        if isinstance(root, _a.Name) and root.id in env["frame_params"]:
+            return "frame"
+        if t.startswith("self.trajectory_universe"):
+            return "frame"
+        raise Unknown(f"object {t[:60]}")
+
+    def vec(e, env):
+        """sign vector expression -> list of D factors"""
+        e = env["cn"].expand(e)
+        if isinstance(e, _a.Name) and e.id in env["bound"]:
+            return env["bound"][e.id]["vec"]
+        if isinstance(e, _a.BinOp) and isinstance(e.op, _a.Div):
+            return vec(e.left, env) + [(k_, w_, t_, not i_) for k_, w_, t_, i_ in vec(e.right, env)]
+        if isinstance(e, _a.BinOp) and isinstance(e.op, _a.Mult):
+            return vec(e.left, env) + vec(e.right, env)
+        if isinstance(e, _a.Call) and isinstance(e.func, _a.Attribute) and e.func.attr == "_determine_positive_directions" and len(e.args) == 1:
+            return [("D", who(e.args[0], env), False, False)]
+        if isinstance(e, _a.Call) and src(e.func) in ("np.array", "np.asarray") and e.args:
+            return vec(e.args[0], env)
+        raise Unknown(f"sign vector {src(e)[:60]}")
+
+    def is_vec(e, env):
+        try:
+            vec(e, env)
+            return True
+        except Unknown:
+            return False
+
+    def mat(e, env):
+        e = env["cn"].expand(e)
+        if isinstance(e, _a.Name) and e.id in env["bound"]:
+            return env["bound"][e.id]["mat"]
+        if isinstance(e, _a.Attribute) and e.attr == "T":
+            w = mat(e.value, env)
+            if len(w) == 1 and w[0][0] == "A":
+                k_, w_, t_, i_ = w[0]
+                return [(k_, w_, not t_, i_)]
+            raise Unknown("transpose of a product")
+        if isinstance(e, _a.Call) and isinstance(e.func, _a.Attribute) and e.func.attr == "principal_axes" and not e.args:
+            return [("A", who(e.func.value, env), True, False)]          # rows are the axes: A^T in the column convention
+        if isinstance(e, _a.Call) and src(e.func) in ("np.linalg.inv", "numpy.linalg.inv", "inv", "np.linalg.pinv") and len(e.args) == 1:
+            return inv(mat(e.args[0], env))
+        if isinstance(e, _a.Call) and src(e.func) in ("np.matmul", "np.dot", "numpy.matmul", "numpy.dot") and len(e.args) == 2:
+            return mat(e.args[0], env) + mat(e.args[1], env)
+        if isinstance(e, _a.Call) and isinstance(e.func, _a.Attribute) and e.func.attr == "dot" and len(e.args) == 1:
+            return mat(e.func.value, env) + mat(e.args[0], env)
+        if isinstance(e, _a.BinOp) and isinstance(e.op, _a.MatMult):
+            return mat(e.left, env) + mat(e.right, env)
+        if isinstance(e, _a.Call) and src(e.func) in ("np.multiply", "numpy.multiply") and len(e.args) == 2:
+            return scale(e.args[0], e.args[1], env)
+        if isinstance(e, _a.BinOp) and isinstance(e.op, _a.Mult):
+            return scale(e.left, e.right, env)
+        if isinstance(e, _a.BinOp) and isinstance(e.op, _a.Div):
+            # M / v : column scaling by 1/v
+            w = scale(e.left, e.right, env)
+            nm = len(mat_or_none(e.left, env) or [])
+            return w[:nm] + [(k_, w_, t_, not i_) for k_, w_, t_, i_ in w[nm:]] if mat_or_none(e.left, env) is not None else (_ for _ in ()).throw(Unknown("division"))
+        if isinstance(e, _a.Call) and src(e.func) in ("np.array", "np.asarray") and e.args:
+            return mat(e.args[0], env)
+        raise Unknown(f"matrix {src(e)[:70]}")
+
+    def mat_or_none(e, env):
+        try:
+            return mat(e, env)
+        except Unknown:
+            return None
+
+    def scale(a, b, env):
+        """elementwise product of a matrix with a broadcast sign vector"""
+        for m_, v_ in ((a, b), (b, a)):
+            mw = mat_or_none(m_, env)
+            if mw is None:
+                continue
+            ve = env["cn"].expand(v_)
+            # row scaling: v[:, np.newaxis] / v[:, None] / v.reshape(-1, 1) / np.tile(v, (3,1)).T
+            if isinstance(ve, _a.Subscript) and isinstance(ve.slice, _a.Tuple) and len(ve.slice.elts) == 2 and \
+                    isinstance(ve.slice.elts[0], _a.Slice) and src(ve.slice.elts[1]) in ("np.newaxis", "None") and is_vec(ve.value, env):
+                return vec(ve.value, env) + mw
+            if isinstance(ve, _a.Call) and isinstance(ve.func, _a.Attribute) and ve.func.attr == "reshape" and \
+                    src(ve).replace(" ", "").endswith("reshape(-1,1)") and is_vec(ve.func.value, env):
+                return vec(ve.func.value, env) + mw
+            if isinstance(ve, _a.Attribute) and ve.attr == "T" and isinstance(ve.value, _a.Call) and src(ve.value.func) in ("np.tile", "numpy.tile") and \
+                    is_vec(ve.value.args[0], env):
+                return vec(ve.value.args[0], env) + mw
+            # column scaling: plain 1-D vector, v[np.newaxis, :], np.tile(v, (3, 1))
+            if isinstance(ve, _a.Call) and src(ve.func) in ("np.tile", "numpy.tile") and len(ve.args) == 2 and \
+                    src(ve.args[1]).replace(" ", "") in ("(3,1)", "[3,1]") and is_vec(ve.args[0], env):
+                return mw + vec(ve.args[0], env)
+            if isinstance(ve, _a.Subscript) and isinstance(ve.slice, _a.Tuple) and len(ve.slice.elts) == 2 and \
+                    src(ve.slice.elts[0]) in ("np.newaxis", "None") and isinstance(ve.slice.elts[1], _a.Slice) and is_vec(ve.value, env):
+                return mw + vec(ve.value, env)
+            if is_vec(ve, env):
+                return mw + vec(ve, env)
+        raise Unknown(f"elementwise product {src(a)[:40]} * {src(b)[:40]}")
+
+    try:
+        cn = Canon(Canon.single_defs(gr.node.body))
+        env = {"cn": cn, "frame_params": set(), "bound": {}}
+        rets = [n for n in _a.walk(gr.node) if isinstance(n, _a.Return) and n.value is not None]
+        if len(rets) != 1:
+            raise Unknown("expected one return")
+        # the per-frame matrices: worker_pool.map(partial(self._f, ag=..., ...), frames)  ->  word of _f's return with the bound keywords
+        frames_name = None
+        per_frame = None
+        for n in _a.walk(gr.node):
+            if isinstance(n, _a.Call) and isinstance(n.func, _a.Attribute) and n.func.attr in ("map", "imap", "starmap") and n.args:
+                f0 = cn.expand(n.args[0])
+                if isinstance(f0, _a.Call) and src(f0.func) in ("partial", "functools.partial") and f0.args and isinstance(f0.args[0], _a.Attribute):
+                    m = at.find_method(f0.args[0].attr)
+                    if m is None:
+                        raise Unknown("per-frame function not found")
+                    ctx.analysed(m)
+                    kw = {k.arg: k.value for k in f0.keywords}
+                    mrets = [r for r in _a.walk(m.node) if isinstance(r, _a.Return) and r.value is not None]
+                    if len(mrets) != 1:
+                        raise Unknown("per-frame function has several returns")
+                    menv = {"cn": Canon(Canon.single_defs(m.node.body)), "frame_params": set(), "bound": {}}
+                    for p_ in m.params()[1:]:
+                        if p_ in kw:
+                            val = kw[p_]
+                            if is_vec(val, env):
+                                menv["bound"][p_] = {"vec": vec(val, env)}
+                            else:
+                                try:
+                                    w_ = who(val, env)
+                                except Unknown:
+                                    w_ = None
+                                if w_ == "frame":
+                                    menv["frame_params"].add(p_)
+                                elif w_ == "ref":
+                                    raise Unknown("reference object handed to the per-frame function")
+                    per_frame = mat(mrets[0].value, menv)
+                    par = getattr(n, "_parent", None)
+                    if isinstance(par, _a.Assign) and isinstance(par.targets[0], _a.Name):
+                        frames_name = par.targets[0].id
+        if per_frame is None or frames_name is None:
+            raise Unknown("per-frame map not recognised")
+        env["bound"][frames_name] = {"mat": per_frame}
+        env["cn"] = Canon({k_: v_ for k_, v_ in Canon.single_defs(gr.node.body).items() if k_ != frames_name})
+        word = mat(rets[0].value, env)
+    except Unknown as e:
+        ctx.inconclusive("QMAT", "C11.rotmat", "the per-frame rotation matrix is not derived as a product of axis matrices and sign scalings", gr.where,
+                         witness=str(e))
+        return
+
+    def normal(word):
+        """adjacent diagonal factors commute: sort every run of D factors; cancel D(x) D(x)^-1"""
+        out, run = [], []
+        # principal-axes matrices are orthogonal: A^T == A^-1
+        word = [(k_, w_, False, (i_ != t_)) if k_ == "A" else (k_, w_, t_, i_) for k_, w_, t_, i_ in word]
+        for f_ in word + [None]:
+            if f_ is not None and f_[0] == "D":
+                run.append(f_)
+                continue
+            run.sort()
+            # cancel pairs
+            k = 0
+            while k + 1 < len(run):
+                if run[k][:3] == run[k + 1][:3] and run[k][3] != run[k + 1][3]:
+                    del run[k:k + 2]
+                    k = max(k - 1, 0)
+                else:
+                    k += 1
+            out += run
+            run = []
+            if f_ is not None:
+                out.append(f_)
+        return out
+
+    def show(word):
+        def one(f_):
+            k_, w_, t_, i_ = f_
+            base = ("A_" if k_ == "A" else "D(s_") + ("k" if w_ == "frame" else "ref") + ("" if k_ == "A" else ")")
+            # stored orientation: principal_axes() rows = axes; A (columns = axes) is principal_axes().T, recorded with t_ == False
+            return base + ("^T" if (k_ == "A" and t_) else "") + ("^-1" if i_ else "")
+        return " · ".join(one(f_) for f_ in word) or "I"
+    want = [("A", "frame", False, False), ("D", "frame", False, False), ("D", "ref", False, True), ("A", "ref", False, True)]
+    got = normal(word)
+    # for sign vectors (entries +-1) D^-1 == D: compare modulo the inversion flag of D factors
+    strip = lambda w: [(k_, w_, t_, (i_ if k_ == "A" else False)) for k_, w_, t_, i_ in w]
+    if strip(got) == strip(normal(want)):
+        ctx.ok("QMAT", "C11.rotmat", "per-frame rotation = A_k · D(s_k) · D(s_ref)^-1 · A_ref^-1 (signs scale the axis columns of the frame "
+               "matrix; the reference axes are inverted unscaled)", gr.where, derived=show(got))
+    else:
+        ctx.violate("QMAT", "C11.rotmat", "the per-frame rotation is not A_k · D(s_k) · D(s_ref)^-1 · A_ref^-1: a sign matrix sits on the wrong "
+                    "side of an axis matrix (row scaling instead of column scaling), so the recovered rotation - still a proper rotation - is "
+                    "wrong whenever the sign matrix does not commute with the axes", gr.where, src(rets[0].value)[:160],
+                    witness=f"derived {show(got)} ; expected {show(normal(want))}")
